@@ -1,5 +1,6 @@
 import Grexv.Model.Format
 import Grexv.Lemmas.Presentation
+import Grexv.Lemmas.EndToEnd
 
 /-!
 # C06 — verbose mode, capturing groups and escaping are presentation only (text-level facts)
@@ -78,5 +79,124 @@ theorem presentation_only {c1 c2 : Config} (h : SameStageInputs c1 c2) (env : En
 
 /-- non-vacuity: verbose + capturing groups against the plain build -/
 example : SameStageInputs { verb := true, cap := true, digit := true } { digit := true } := by simp [SameStageInputs]
+
+/-- **C06 (capturing groups are presentation only — language level, default settings, all inputs)** the pattern
+built with capturing groups and the one built without accept exactly the same strings (of scalar values): both are
+accepted by the model of `Regex::new`, and a string is matched in full by one iff it is by the other -/
+theorem capture_groups_same_language (env : Env) (ws : List Str) (st0 st1 : Stages)
+    (h0 : regExpFrom (cfgPlain false) env ws = .ok st0) (h1 : regExpFrom (cfgPlain true) env ws = .ok st1)
+    (hseg : ∀ w ∈ ws, SegOK env w) (hne : ∃ t ∈ ws, t ≠ []) (s : Str) (hs : ∀ c ∈ s, Scalar c) :
+    ∃ P0 P1, Spec.parse (fmtRegExp (cfgPlain false) st0.finalAst) = some (⟨false, false⟩, P0) ∧
+      Spec.parse (fmtRegExp (cfgPlain true) st1.finalAst) = some (⟨false, false⟩, P1) ∧
+      (Spec.fullMatch false P0 s = Spec.fullMatch false P1 s) := by
+  obtain ⟨P0, p0, m0⟩ := default_exact false env ws st0 h0 hseg hne s hs
+  obtain ⟨P1, p1, m1⟩ := default_exact true env ws st1 h1 hseg hne s hs
+  refine ⟨P0, P1, p0, p1, ?_⟩
+  cases h : Spec.fullMatch false P0 s <;> cases h' : Spec.fullMatch false P1 s
+  · rfl
+  · exact absurd (m0.mpr (m1.mp h')) (by simp [h])
+  · exact absurd (m1.mpr (m0.mp h)) (by simp [h'])
+  · rfl
+
+mutual
+/-- every group of a pattern carries the given flag -/
+def Pat.GroupsAll (cap : Bool) : Spec.Pat → Prop
+  | .grp c p => c = cap ∧ Pat.GroupsAll cap p
+  | .cat a b | .alt a b => Pat.GroupsAll cap a ∧ Pat.GroupsAll cap b
+  | .rep p _ _ _ => Pat.GroupsAll cap p
+  | _ => True
+end
+
+theorem groupsAll_catList (cap : Bool) (ps : List Spec.Pat) (h : ∀ p ∈ ps, Pat.GroupsAll cap p) :
+    Pat.GroupsAll cap (Spec.catList ps) := by
+  induction ps with
+  | nil => trivial
+  | cons p ps ih =>
+    cases ps with
+    | nil => exact h p List.mem_cons_self
+    | cons q qs => exact ⟨h p List.mem_cons_self, ih (fun x hx => h x (List.mem_cons_of_mem _ hx))⟩
+
+theorem groupsAll_altList (cap : Bool) (ps : List Spec.Pat) (h : ∀ p ∈ ps, Pat.GroupsAll cap p) :
+    Pat.GroupsAll cap (Spec.altList ps) := by
+  induction ps with
+  | nil => trivial
+  | cons p ps ih =>
+    cases ps with
+    | nil => exact h p List.mem_cons_self
+    | cons q qs => exact ⟨h p List.mem_cons_self, ih (fun x hx => h x (List.mem_cons_of_mem _ hx))⟩
+
+theorem groupsAll_subOf (cap : Bool) (outer : Nat) (e : Expr) (its : List Spec.Pat) (bd : Spec.Pat)
+    (h1 : ∀ p ∈ its, Pat.GroupsAll cap p) (h2 : Pat.GroupsAll cap bd) : ∀ p ∈ subOf cap outer e its bd, Pat.GroupsAll cap p := by
+  unfold subOf
+  split
+  · intro p hp; simp only [List.mem_singleton] at hp; subst hp; exact ⟨rfl, h2⟩
+  · exact h1
+
+theorem groupsAll_optOf (cap : Bool) (l : List Spec.Pat) (h : ∀ p ∈ l, Pat.GroupsAll cap p) : ∀ p ∈ optOf l, Pat.GroupsAll cap p := by
+  unfold optOf
+  split
+  · rename_i p
+    intro q hq
+    simp only [List.mem_singleton] at hq
+    subst hq
+    exact h p (by simp)
+  · exact h
+
+mutual
+theorem both_groups (cap : Bool) : ∀ (e : Expr), (∀ p ∈ (e.both cap).1, Pat.GroupsAll cap p) ∧ Pat.GroupsAll cap (e.both cap).2
+  | .lit c => by
+    have h : ∀ p ∈ (flat c).map Spec.Pat.chr, Pat.GroupsAll cap p := by
+      intro p hp; obtain ⟨x, _, rfl⟩ := List.mem_map.mp hp; trivial
+    simp only [Expr.both]
+    exact ⟨h, groupsAll_catList cap _ h⟩
+  | .cls cs => by
+    have h : ∀ p ∈ [Spec.Pat.set (classItems cs) false], Pat.GroupsAll cap p := by
+      intro p hp; simp only [List.mem_singleton] at hp; subst hp; trivial
+    simp only [Expr.both]
+    exact ⟨h, groupsAll_catList cap _ h⟩
+  | .cat a b => by
+    have ia := both_groups cap a
+    have ib := both_groups cap b
+    have h : ∀ p ∈ subOf cap 2 a (a.both cap).1 (a.both cap).2 ++ subOf cap 2 b (b.both cap).1 (b.both cap).2, Pat.GroupsAll cap p := by
+      intro p hp
+      simp only [List.mem_append] at hp
+      rcases hp with hp | hp
+      · exact groupsAll_subOf cap 2 a _ _ ia.1 ia.2 p hp
+      · exact groupsAll_subOf cap 2 b _ _ ib.1 ib.2 p hp
+    simp only [Expr.both]
+    exact ⟨h, groupsAll_catList cap _ h⟩
+  | .rep e q => by
+    have ie := both_groups cap e
+    have h := groupsAll_optOf cap _ (groupsAll_subOf cap 3 e _ _ ie.1 ie.2)
+    simp only [Expr.both]
+    exact ⟨h, groupsAll_catList cap _ h⟩
+  | .alt os => by
+    simp only [Expr.both]
+    exact ⟨by simp, groupsAll_altList cap _ (bothL_groups cap os)⟩
+theorem bothL_groups (cap : Bool) : ∀ (os : List Expr), ∀ p ∈ Expr.bothL cap os, Pat.GroupsAll cap p
+  | [] => by simp [Expr.bothL]
+  | o :: os => by
+    intro p hp
+    simp only [Expr.bothL, List.mem_cons] at hp
+    rcases hp with rfl | hp
+    · exact groupsAll_catList cap _ (both_groups cap o).1
+    · exact bothL_groups cap os p hp
+end
+
+/-- **C06 (all or none)** in the pattern the regex parser builds from the text printed for a well-formed expression,
+every group is capturing when capturing groups are requested and none is otherwise -/
+theorem groups_all_or_none (cap : Bool) (e : Expr) (hwf : e.WF) :
+    ∃ P, Spec.parse (fmtRegExp (cfgPlain cap) e) = some (⟨false, false⟩, P) ∧ Pat.GroupsAll cap P := by
+  refine ⟨_, parse_printed cap e hwf, ?_⟩
+  apply groupsAll_catList
+  intro p hp
+  simp only [List.mem_cons, List.mem_append, List.mem_nil_iff, or_false] at hp
+  rcases hp with rfl | hp | rfl
+  · trivial
+  · unfold topItems at hp
+    split at hp
+    · simp only [List.mem_singleton] at hp; subst hp; exact ⟨rfl, (both_groups cap e).2⟩
+    · exact (both_groups cap e).1 p hp
+  · trivial
 
 end Grexv.Props.C06
